@@ -1,7 +1,7 @@
 SPECIFICATION FairSpec
 CONSTANTS
-  MaxP = 4
-  MaxEv = 2
+  MaxP = 3
+  MaxEv = 1
   MaxExit = 1
   ROE = {TRUE, FALSE}
   DEB = {TRUE, FALSE}
